@@ -55,7 +55,10 @@ def jsonable(x):
             return {str(k): jsonable(v) for k, v in x.items()}
         if isinstance(x, (list, tuple, set)):
             return [jsonable(v) for v in x]
-        return repr(x)
+        try:
+            return repr(x)
+        except Exception:
+            return '<%s object whose repr raises>' % type(x).__name__
 
 
 def run(pid, tier, seed, replay_only=None):
@@ -376,7 +379,12 @@ def replay(path):
         return 1
     q = data.get('function')
     if q in C.CONTRACTS:
-        r = native.check_native(C.CONTRACTS[q], ce['args'])
+        args = ce['args']
+        if ce.get('index') is not None:
+            # inputs that are not JSON values (objects with a custom repr ...) are regenerated
+            # from the deterministic generator stream the search used
+            args = native.regenerate(C.CONTRACTS[q], ce.get('tier', 'quick'), ce.get('seed', 0), ce['index']) or args
+        r = native.check_native(C.CONTRACTS[q], args)
         print('input: %r' % (ce['args'],))
         print('on the current tree: %s' % ('contract holds' if r is None else r))
         return 0 if r is None else 1
